@@ -6,14 +6,11 @@
 
     spec oracle: the node survives every event (property text: no peer input,
     in any order, crashes the node or stops a background loop).
-    known-finding codes (first failing event of the case):
-      1  the pending loop (no recover) dies on a group that overruns the
-         block's transaction slice (model: [Crashed W_GROUP] at an [ETick]);
-      2  fatal out-of-memory in addLtBlock: Header.TxCount sizes three
-         allocations (model: [Crashed 0] at an [ERecvLt]);
-      3  disableValidation: the pending loop dies on the nil validator right
-         after handing a completed block over (model: [Crashed W_NILVAL] at an
-         [ETick]). *)
+    No known-finding codes: the three findings of this property (group
+    overrun in the pending loop, Header.TxCount sizing the allocations of
+    addLtBlock, nil validator under disableValidation) are repaired in the
+    code and in the model; an implementation that dies anywhere is a
+    violation. *)
 From Coq Require Import List ZArith NArith Bool String.
 From C33 Require Import Lib.Harness C33.Model.
 Import ListNotations.
@@ -60,13 +57,6 @@ Definition obs_agree (st : state) (e : list eff) (o : obs) : bool :=
   && Z.eqb (Z.of_nat (List.length (st_pend st))) (o_pend o)
   && Z.eqb (Z.of_nat (List.length (st_reqs st))) (o_reqs o).
 
-Definition kf_of (ev : event) (why : N) : N :=
-  match ev with
-  | ETick _ => if N.eqb why W_GROUP then 1%N else if N.eqb why W_NILVAL then 3%N else 0%N
-  | ERecvLt _ _ _ _ => if N.eqb why 0%N then 2%N else 0%N
-  | _ => 0%N
-  end.
-
 (** fold over the history; stops at the first event the implementation did not survive *)
 Fixpoint check_steps (c : config) (st : state) (p : pool) (l : list (event * obs)) : verdict :=
   match l with
@@ -81,7 +71,7 @@ Fixpoint check_steps (c : config) (st : state) (p : pool) (l : list (event * obs
           else (false, false, 0%N)            (* the implementation died where the model survives *)
       | Crashed why =>
           if o_alive o then (false, true, 0%N)  (* the model dies where the implementation survives *)
-          else (match tl with [] => true | _ => false end, false, kf_of ev why)
+          else (match tl with [] => true | _ => false end, false, 0%N)
       end
   end.
 
@@ -105,7 +95,7 @@ Definition check_live (c : config) (p0 : pool) (evs : list event) (crash : optio
   | LDone st e, None => (obs_agree st e final, true, 0%N)
   | LDone _ _, Some _ => (false, false, 0%N)
   | LCrash _ _ _, None => (false, true, 0%N)
-  | LCrash i ev why, Some j => (Nat.eqb i j, false, if Nat.eqb i j then kf_of ev why else 0%N)
+  | LCrash i ev why, Some j => (Nat.eqb i j, false, 0%N)
   end.
 
 Definition check_case (cs : case) : verdict :=
